@@ -16,7 +16,7 @@ from mc import common
 LEVEL = "exploration"
 RTOL = 1e-10
 
-SRC = ["pol2", "pol3", "pol3b", "pol5", "meshT", "meshC", "meshC2", "meshC3", "tet", "cub", "seg", "circ", "cyl", "cusA", "cusB"]
+SRC = ["pol2", "pol3", "pol3b", "pol5", "meshT", "meshC", "meshC2", "meshC3", "meshC4", "tet", "cub", "seg", "circ", "cyl", "cusA", "cusB"]
 OBS = ["p1", "p2", "s2", "pin", "srot"]
 FIELDS = ["B", "H", "J"]
 
@@ -71,6 +71,8 @@ def mk(kind, plen=None, at=None):
         return magpy.magnet.TriangularMesh(vertices=v, faces=f, polarization=pol, **kw)
     if kind == "meshC":
         return magpy.magnet.TriangularMesh(vertices=CUBE_V, faces=CUBE_F, polarization=pol, **kw)
+    if kind == "meshC4":  # the identical local mesh as meshC (a copy of the body) with another polarization
+        return magpy.magnet.TriangularMesh(vertices=CUBE_V, faces=CUBE_F, polarization=(-0.7, 0.1, 0.4), **kw)
     if kind == "meshC2":
         return magpy.magnet.TriangularMesh(vertices=CUBE_V * np.array((2.6, 0.5, 0.6)) + (0.9, 0, 0), faces=CUBE_F,
                                            polarization=(0.5, 0.5, -0.2), **kw)
@@ -295,7 +297,7 @@ def enumerate_cases(tier):
                                       "squeeze_too": obs in ("p1", "s2")})
     # mesh sequences of length <= 4 over three meshes with one or two observers
     for n in (2, 3, 4):
-        for ks in itertools.product(["meshC", "meshC2", "meshT", "meshC3"] if n < 4 else ["meshC", "meshC3", "meshT"], repeat=n):
+        for ks in itertools.product(["meshC", "meshC2", "meshT", "meshC3", "meshC4"] if n < 4 else ["meshC", "meshC3", "meshT", "meshC4"], repeat=n):
             for obs in ("p1", "pin", "p2"):
                 for field in ("B", "J"):
                     cases.append({"part": "compose", "srcs": [[k, 1] for k in ks], "obs": obs, "field": field})
